@@ -31,6 +31,18 @@ pub fn weight_lattice(n: usize) -> Vec<Vec<f64>> {
     rec(n, 4, &mut vec![], &mut ws);
     ws.retain(|w| w.iter().all(|x| *x >= -0.25 && *x <= 1.5));
     ws.sort_by_key(|w| (w.iter().filter(|x| **x != 0.0 && **x != 1.0).count(), w.iter().filter(|x| **x < 0.0).count()));
+    // far extrapolations (a component, or a running sum in voice order, below -1), and vectors with an exact 1.0 or an
+    // exact 0.0 in the middle next to components that cancel
+    let mut far: Vec<Vec<f64>> = vec![vec![2.5, -1.5], vec![-1.5, 2.5]];
+    if n >= 3 {
+        far = vec![vec![1.25, 1.25, -1.5], vec![-0.75, -0.75, 2.5], vec![1.0, 0.5, -0.5], vec![0.5, 0.0, 0.5], vec![-2.0, 3.0, 0.0]];
+    }
+    for mut f in far {
+        f.resize(n, 0.0);
+        if !ws.contains(&f) {
+            ws.push(f);
+        }
+    }
     ws
 }
 
@@ -54,7 +66,7 @@ struct SetCase {
 
 pub fn run(tier: Tier) -> i32 {
     let rep = Report::new("C10", tier, "model_checking");
-    rep.set_rule("SCOPE: voice sets {V0; V0+P1; V0+P1+P2; V0+P1+P2+P3; V0+V0; generated pairs/triples with different trees incl. coarse-then-fine and fine-then-coarse orders} x weight vectors on the quarter-step simplex lattice incl. vertices and components in [-1/4,3/2] x which of the 1+2*streams quantities (duration, parameter[i], gv[i]) deviate from equal weights (<= 2 at a time, the second with the reversed vector; plus whole groups moved together: duration+parameters, all GV, all parameters, all but duration, all) x labels (cover set Lambda + corpus windows); oracle: Models::duration / model_stream(i).stream / .gv equal sum_v w_v x that voice's own Model::get_parameter (rel 1e-12 incl. voicing weight); weights (1,0,..) reproduce the single-voice parameters and waveform bit-exactly; identical voices reproduce the single voice (parameters 1e-12, waveform 1e-6 of peak); distinct = (voice set, weight vector, deviating quantities); non-trivial = more than one voice");
+    rep.set_rule("SCOPE: voice sets {V0; V0+P1; V0+P1+P2; V0+P1+P2+P3; V0+V0; generated pairs/triples with different trees incl. coarse-then-fine and fine-then-coarse orders} x weight vectors on the quarter-step simplex lattice incl. vertices and components in [-1/4,3/2], plus far extrapolations such as (2.5,-1.5), (1.25,1.25,-1.5), (1,.5,-.5), (.5,0,.5) x which of the 1+2*streams quantities (duration, parameter[i], gv[i]) deviate from equal weights (<= 2 at a time, the second with the reversed vector; plus whole groups moved together: duration+parameters, all GV, all parameters, all but duration, all) x labels (cover set Lambda + corpus windows); oracle: Models::duration / model_stream(i).stream / .gv equal sum_v w_v x that voice's own Model::get_parameter (rel 1e-12 incl. voicing weight); weights (1,0,..) reproduce the single-voice parameters and waveform bit-exactly; identical voices reproduce the single voice (parameters 1e-12, waveform 1e-6 of peak); distinct = (voice set, weight vector, deviating quantities); non-trivial = more than one voice");
     rep.assume("weights on the quarter-step lattice; each voice's own tree selection is taken from Model::get_parameter (validated against the independent reader by C04)");
     let corpus = labels::corpus();
     let lam = labels::lambda(&corpus);
@@ -196,11 +208,19 @@ pub fn run(tier: Tier) -> i32 {
                                     break 'outer;
                                 }
                             }
-                            if ps[0].msd.is_some() {
-                                let m: f64 = ps.iter().zip(wp).map(|(p, w)| w * p.msd.unwrap()).sum();
+                            if ps[0].msd.opt().is_some() {
+                                let m: f64 = ps.iter().zip(wp).map(|(p, w)| w * p.msd.opt().unwrap()).sum();
                                 rep.cmp(1);
                                 if !((gmsd - m).abs() <= 1e-12) {
                                     fail = Some(format!("stream {} label {} state {}: voicing weight {} vs weighted average {}", i, li, s, gmsd, m));
+                                    break 'outer;
+                                }
+                            } else {
+                                // a stream without multi-space distribution is voiced in every frame, whatever the weights: the
+                                // value compared with the threshold must exceed every legal threshold
+                                rep.cmp(1);
+                                if !(*gmsd > 1.0) {
+                                    fail = Some(format!("stream {} label {} state {}: a stream without voicing weights gets voicing value {} under weights {:?} (would be masked at a threshold of 1)", i, li, s, gmsd, wp));
                                     break 'outer;
                                 }
                             }
